@@ -102,6 +102,7 @@ func (w *world) serveViews(vs []*view, disc bool) {
 				if !seenF[key] {
 					seenF[key] = true
 					w.t.Line("vf %d %d %s => -", h, f, w.verifyRow(f, w.chain[h]))
+					w.t.Line("gt %d %d %s => -", h, f, w.gtRow(f, w.chain[h]))
 				}
 				if live(v.id) {
 					data, _ := w.filters[f].NBytes()
